@@ -35,7 +35,10 @@ func runC36(c *Ctx) {
 			c.G2("G2-access", fmt.Sprintf("Handle|checkAuth before dispatch#%d", k+1), h, d, "checkAuth(r)", condCall(callPred(R{hp, "", "checkAuth"}), true))
 		}
 		// the request body is read only after both
-		for _, rd := range ssau.CallsIn(h, func(cm *ssa.CallCommon) bool { f := cm.StaticCallee(); return f != nil && strings.HasSuffix(f.String(), "ioutil.ReadAll") }) {
+		for _, rd := range ssau.CallsIn(h, func(cm *ssa.CallCommon) bool {
+			f := cm.StaticCallee()
+			return f != nil && strings.HasSuffix(f.String(), "ioutil.ReadAll")
+		}) {
 			c.G2("G2-access", "Handle|checkAuth before reading the body", h, rd, "checkAuth(r)", condCall(callPred(R{hp, "", "checkAuth"}), true))
 		}
 	}
@@ -64,13 +67,19 @@ func runC36(c *Ctx) {
 		}, G1Opt{BoolSuccess: true})
 		// the tested address is the request's RemoteAddr
 		ok := false
-		for _, call := range ssau.CallsIn(ca, func(cm *ssa.CallCommon) bool { f := cm.StaticCallee(); return f != nil && f.String() == "net.SplitHostPort" }) {
+		for _, call := range ssau.CallsIn(ca, func(cm *ssa.CallCommon) bool {
+			f := cm.StaticCallee()
+			return f != nil && f.String() == "net.SplitHostPort"
+		}) {
 			ok = ssau.IsFieldOf(ssau.Unwrap(call.Common().Args[0]), "Request", "RemoteAddr")
 		}
 		c.R.Check("G2-access", "clientAllowed|address = r.RemoteAddr", ok, c.pos(ca.Pos()), "the filtered address is the connection's remote address (not a header)")
 	}
 	if au := c.fn(hp, "", "checkAuth"); au != nil {
-		ctc := func(cm *ssa.CallCommon) bool { f := cm.StaticCallee(); return f != nil && f.String() == "crypto/subtle.ConstantTimeCompare" }
+		ctc := func(cm *ssa.CallCommon) bool {
+			f := cm.StaticCallee()
+			return f != nil && f.String() == "crypto/subtle.ConstantTimeCompare"
+		}
 		noCred := func(i *ssa.If) (bool, bool) {
 			// User == Pass && len(User) == 0
 			x, neg := ssau.StripNot(i.Cond)
